@@ -733,6 +733,11 @@ def trimApply (side : TrimSide) (len : TrimLength) (pcs : List PatternChar) (v :
   | .ok p => trimValue p v
   | .error _ => v
 
+/-- `trim::apply` on an array value (`"${@#pat}"`): every element is trimmed by the same pattern -/
+def trimArray (side : TrimSide) (len : TrimLength) (pcs : List PatternChar) (vs : List (List Char)) :
+    List (List Char) :=
+  vs.map (trimApply side len pcs)
+
 /-- `case.rs config()` -/
 def caseConfig : Config := { anchorBegin := true, anchorEnd := true }
 
